@@ -926,3 +926,163 @@ func impliedConds(cond ssa.Value, outcome bool, depth int) []ImpliedCond {
 	}
 	return append(out, impliedConds(nonConst[0], outcome, depth+1)...)
 }
+
+// GuardedWhen is Guarded restricted to the arrivals at sink that matter: when(st) is asked, with the facts of the
+// path, whether this arrival is one the rule is about (e.g. "the request returned here is not nil").
+func GuardedWhen(from *ssa.BasicBlock, sink ssa.Instruction, pass []Edge, nr NoReturn, when func(st PState) bool) (bool, string) {
+	cut := EdgeSet(pass)
+	if !instrReachableStatic(from, sink, cut, nr) {
+		return true, ""
+	}
+	hit := false
+	before := ExploreOverflow
+	ExploreOverflow = false
+	oldOnly := exploreOnly
+	exploreOnly = canReach(sink.Block())
+	ExploreX(from, nil, nil, nr, cut, nil, func(in ssa.Instruction, st PState) bool {
+		if in == sink && when(st) {
+			hit = true
+		}
+		return !hit
+	})
+	exploreOnly = oldOnly
+	over := ExploreOverflow
+	ExploreOverflow = before || over
+	if !hit && !over {
+		return true, ""
+	}
+	return false, PathString(PathTo(from, sink.Block(), cut))
+}
+
+// ---- results returned as a small struct instead of several values ---------------------------------------------
+
+// flatFields: the component types a result of type t contributes when small private structs are flattened.
+func flatWidth(t types.Type) int {
+	if nt, ok := t.(*types.Named); ok {
+		if st, ok := nt.Underlying().(*types.Struct); ok && !nt.Obj().Exported() && st.NumFields() > 0 && st.NumFields() <= 4 {
+			return st.NumFields()
+		}
+	}
+	return 1
+}
+
+// ResultComponents lists what a return hands back, with a result that is a small unexported struct built on the
+// spot (composite literal) replaced by its field values, so that `return T{a, b}, err` reads like `return a, b, err`.
+func ResultComponents(r *ssa.Return) []ssa.Value {
+	var out []ssa.Value
+	for _, v := range r.Results {
+		w := flatWidth(v.Type())
+		if w == 1 {
+			out = append(out, v)
+			continue
+		}
+		fields := make([]ssa.Value, w)
+		found := 0
+		if ld, ok := v.(*ssa.UnOp); ok && ld.Op == token.MUL {
+			if al, ok := ld.X.(*ssa.Alloc); ok {
+				for _, ref := range Referrers(al) {
+					if fa, ok := ref.(*ssa.FieldAddr); ok && fa.Field < w {
+						for _, rr := range Referrers(fa) {
+							if st, ok := rr.(*ssa.Store); ok && st.Addr == ssa.Value(fa) && (st.Block() == r.Block() || st.Block().Dominates(r.Block())) {
+								fields[fa.Field] = st.Val
+								found++
+							}
+						}
+					}
+				}
+				// fields never stored hold the zero value
+				if st, ok := al.Type().Underlying().(*types.Pointer).Elem().Underlying().(*types.Struct); ok {
+					for i := 0; i < w; i++ {
+						if fields[i] == nil {
+							fields[i] = zeroConst(st.Field(i).Type())
+						}
+					}
+				}
+			}
+		}
+		if c, ok := v.(*ssa.Const); ok && c.Value == nil {
+			if st, ok := v.Type().Underlying().(*types.Struct); ok {
+				for i := 0; i < w; i++ {
+					fields[i] = zeroConst(st.Field(i).Type())
+				}
+			}
+		}
+		complete := true
+		for _, f := range fields {
+			if f == nil {
+				complete = false
+			}
+		}
+		if !complete {
+			out = append(out, v)
+			for i := 1; i < w; i++ {
+				out = append(out, v)
+			}
+			continue
+		}
+		out = append(out, fields...)
+	}
+	return out
+}
+
+func zeroConst(t types.Type) ssa.Value {
+	if b, ok := t.Underlying().(*types.Basic); ok {
+		switch {
+		case b.Info()&types.IsBoolean != 0:
+			return ssa.NewConst(constant.MakeBool(false), t)
+		case b.Info()&types.IsString != 0:
+			return ssa.NewConst(constant.MakeString(""), t)
+		case b.Info()&types.IsInteger != 0:
+			return ssa.NewConst(constant.MakeInt64(0), t)
+		}
+	}
+	return ssa.NewConst(nil, t)
+}
+
+// CallComponent: v is the idx-th component of call's results, counting the fields of a small unexported struct
+// result as components of their own (Extract #i of the tuple, or field j of the struct result).
+func CallComponent(v ssa.Value, call *ssa.Call) (int, bool) {
+	sig := call.Call.Signature()
+	if sig == nil {
+		return 0, false
+	}
+	offset := func(i int) int {
+		o := 0
+		for k := 0; k < i && k < sig.Results().Len(); k++ {
+			o += flatWidth(sig.Results().At(k).Type())
+		}
+		return o
+	}
+	tupleIdx := func(x ssa.Value) (int, bool) {
+		if x == ssa.Value(call) && sig.Results().Len() == 1 {
+			return 0, true
+		}
+		if ex, ok := x.(*ssa.Extract); ok && ex.Tuple == ssa.Value(call) {
+			return ex.Index, true
+		}
+		return 0, false
+	}
+	if i, ok := tupleIdx(v); ok {
+		return offset(i), true
+	}
+	if f, ok := v.(*ssa.Field); ok {
+		if i, ok := tupleIdx(f.X); ok {
+			return offset(i) + f.Field, true
+		}
+	}
+	// the struct was stored into a local first: load of a field address of a cell holding the result
+	if ld, ok := v.(*ssa.UnOp); ok && ld.Op == token.MUL {
+		if fa, ok := ld.X.(*ssa.FieldAddr); ok {
+			if al, ok := fa.X.(*ssa.Alloc); ok {
+				for _, ref := range Referrers(al) {
+					if st, ok := ref.(*ssa.Store); ok && st.Addr == ssa.Value(al) {
+						if i, ok := tupleIdx(st.Val); ok {
+							return offset(i) + fa.Field, true
+						}
+					}
+				}
+			}
+		}
+	}
+	return 0, false
+}
